@@ -37,24 +37,41 @@ Definition kind_code_ok (k : rkind) (code : N) : bool :=
   | REmpty => (code =? 0x1003) || (code =? 65535)   (* T0x1003: nil body; defaultHandle wrapper: nil body *)
   end.
 
+(* compared AS FINITE MAPS (defaultProtocolHandles is a Go map literal: the order of its entries is not
+   behaviour): same commands, each once, same ReplyProtocol and ReplyBody kind, Protocol() = key *)
+Fixpoint nodupb (l : list N) : bool :=
+  match l with [] => true | x :: t => negb (existsb (N.eqb x) t) && nodupb t end.
+
 Theorem tables_sim_registry_ids_and_reply :
-  map (fun p => (fst p, fst (fst (snd p)))) gen_sim_registry =
-  map (fun p => (fst p, fst (snd p))) sim_handles.
-Proof. reflexivity. Qed.
+  forallb (fun p => match sim_lookup (fst p) with
+                    | Some (rid, _) => rid =? fst (fst (snd p))
+                    | None => false
+                    end) gen_sim_registry = true /\
+  forallb (fun id => existsb (N.eqb id) (map fst gen_sim_registry)) (map fst sim_handles) = true /\
+  nodupb (map fst gen_sim_registry) = true /\ nodupb (map fst sim_handles) = true.
+Proof. repeat split; reflexivity. Qed.
 
 Theorem tables_sim_registry_protocol_is_key :
   forallb (fun p => fst p =? snd (fst (snd p))) gen_sim_registry = true.
 Proof. reflexivity. Qed.
 
 Theorem tables_sim_registry_reply_body :
-  forallb (fun pq => kind_code_ok (snd (snd (snd pq))) (snd (snd (fst pq))))
-          (combine gen_sim_registry sim_handles) = true /\
-  length gen_sim_registry = length sim_handles.
-Proof. split; reflexivity. Qed.
+  forallb (fun p => match sim_lookup (fst p) with
+                    | Some (_, k) => kind_code_ok k (snd (snd p))
+                    | None => false
+                    end) gen_sim_registry = true.
+Proof. reflexivity. Qed.
 
 (* every supported command has a default body in every version and nothing else has one: the keys of
-   default_bodies are exactly versions x the commands of the regenerated table *)
-Theorem tables_sim_default_body_keys :
-  map fst default_bodies =
+   default_bodies are exactly versions x the commands of the regenerated table (as sets, each key once) *)
+Definition key_eqb (a b : N * N) : bool := (fst a =? fst b) && (snd a =? snd b).
+Fixpoint nodupk (l : list (N * N)) : bool :=
+  match l with [] => true | x :: t => negb (existsb (key_eqb x) t) && nodupk t end.
+Definition gen_keys : list (N * N) :=
   flat_map (fun ver => map (fun p => (ver, fst p)) gen_sim_registry) [V2011; V2013; V2019].
-Proof. reflexivity. Qed.
+
+Theorem tables_sim_default_body_keys :
+  forallb (fun k => existsb (key_eqb k) gen_keys) (map fst default_bodies) = true /\
+  forallb (fun k => existsb (key_eqb k) (map fst default_bodies)) gen_keys = true /\
+  nodupk (map fst default_bodies) = true.
+Proof. repeat split; reflexivity. Qed.
